@@ -81,6 +81,12 @@ Proof.
   unfold earliest_exit in X. rewrite K in X. cbn [oadd] in X. apply omin_le_r in X. lia.
 Qed.
 
+(* a descendant that keeps the agent's standard error open changes nothing:
+   Close does not wait for the end of that stream *)
+Lemma close_linger_irrelevant : forall d p e b,
+  close_run d (with_linger b p) e = close_run d p e.
+Proof. reflexivity. Qed.
+
 (* a cooperative agent is not signalled at all *)
 Lemma close_no_force : forall d p e t, p_self p = Some t -> t < d ->
   exists o, close_run d p e = Some o /\ o_stage o = StSelf /\ o_ret o = t
